@@ -106,11 +106,13 @@ func runNtsEnc(tags string, a []Val) {
 	authOK := false
 	after := VL()
 	if err == nil {
-		var d2 nts.Packet
-		if nts.DecodePacket(&d2, enc) == nil {
-			authOK = nts.ProcessRequest(enc, a[5].B, &d2) == nil
-			after = cookiesVal(d2.Cookies)
-		}
+		watchInput(inNtsRequest, enc, a[5].B, func() {
+			var d2 nts.Packet
+			if nts.DecodePacket(&d2, enc) == nil {
+				authOK = nts.ProcessRequest(enc, a[5].B, &d2) == nil
+				after = cookiesVal(d2.Cookies)
+			}
+		})
 	}
 	w.Case("nts.enc", tags, fmtVals(a), fmtVals([]Val{VI(0), VBy(enc), VI(ntsErrClass(err)), ntsPktVal(&d), VBool(authOK), after,
 		VBy(truect), VL(VBool(ferr == nil), VBy(first))}))
@@ -200,7 +202,8 @@ func runNtsFmt(tags string, a []Val) {
 	b = append(b, ct...)
 	b = append(b, make([]byte, pad4(len(ct))-len(ct))...)
 	var d nts.Packet
-	err := nts.DecodePacket(&d, b)
+	var err error
+	watchInput(inNtsDecode, b, nil, func() { err = nts.DecodePacket(&d, b) })
 	w.Case("nts.fmt", tags, fmtVals(a), fmtVals([]Val{VBy(b), VI(ntsErrClass(err)), ntsPktVal(&d)}))
 }
 
@@ -258,9 +261,11 @@ func runNtsResp(tags string, a []Val) {
 	var d2 nts.Packet
 	var f ntske.Fetcher
 	var aerr int64 = 9
-	if nts.DecodePacket(&d2, enc) == nil {
-		aerr = authErrClass(nts.ProcessResponse(enc, a[4].B, &f, &d2, a[2].B))
-	}
+	watchInput(inNtsResponse, enc, a[4].B, func() {
+		if nts.DecodePacket(&d2, enc) == nil {
+			aerr = authErrClass(nts.ProcessResponse(enc, a[4].B, &f, &d2, a[2].B))
+		}
+	})
 	stored := f.VerifData().Cookie
 	sv := make([]Val, len(stored))
 	for i, c := range stored {
@@ -352,10 +357,12 @@ func runNtsPos(tags string, a []Val) {
 	var d2 nts.Packet
 	var aerr int64 = 9
 	after := VL()
-	if nts.DecodePacket(&d2, b) == nil {
-		aerr = authErrClass(nts.ProcessRequest(b, key, &d2))
-		after = cookiesVal(d2.Cookies)
-	}
+	watchInput(inNtsRequest, b, key, func() {
+		if nts.DecodePacket(&d2, b) == nil {
+			aerr = authErrClass(nts.ProcessRequest(b, key, &d2))
+			after = cookiesVal(d2.Cookies)
+		}
+	})
 	w.Case("nts.pos", tags, fmtVals(a), fmtVals([]Val{VBy(b), VI(ntsErrClass(derr)), ntsPktVal(&d), VI(aerr), after}))
 }
 
@@ -423,7 +430,8 @@ func runNtsDec(tags string, a []Val) {
 	var p nts.Packet
 	var obs []Val
 	for _, b := range a[0].L {
-		err := nts.DecodePacket(&p, b.B)
+		var err error
+		watchInput(inNtsDecode, b.B, nil, func() { err = nts.DecodePacket(&p, b.B) })
 		obs = append(obs, VL(VI(ntsErrClass(err)), ntsPktVal(&p)))
 	}
 	w.Case("nts.dec", tags, fmtVals(a), fmtVals([]Val{VL(obs...)}))
